@@ -197,12 +197,19 @@ impl Harness for MphfPar {
         type KmerK31 = VarIntKmer<u64, K31>;
         match c.graph.ktype.as_str() {
             "Kmer4" => run_k::<Kmer4>(c, rec),
+            "Kmer5" => run_k::<Kmer5>(c, rec),
             "Kmer6" => run_k::<Kmer6>(c, rec),
             "Kmer8" => run_k::<Kmer8>(c, rec),
+            "Kmer12" => run_k::<Kmer12>(c, rec),
+            "Kmer14" => run_k::<Kmer14>(c, rec),
             "Kmer16" => run_k::<Kmer16>(c, rec),
+            "Kmer20" => run_k::<Kmer20>(c, rec),
+            "Kmer24" => run_k::<Kmer24>(c, rec),
             "KmerK31" => run_k::<KmerK31>(c, rec),
             "Kmer32" => run_k::<Kmer32>(c, rec),
+            "Kmer40" => run_k::<Kmer40>(c, rec),
             "Kmer48" => run_k::<Kmer48>(c, rec),
+            "Kmer64" => run_k::<Kmer64>(c, rec),
             o => panic!("k-mer type {} not in list", o),
         }
     }
